@@ -1,5 +1,5 @@
 #!/usr/bin/env bash
-# Builds both driver binaries (offline) and pipes a few requests through each one.
+# Builds the driver binaries (offline) and pipes a few requests through each one.
 # Responses are printed one per line, long ones cut at $CUT characters (default 900; CUT=0: no cut).
 set -euo pipefail
 
@@ -8,10 +8,11 @@ TARGET="${CARGO_TARGET_DIR:-/verif/.cache/driver-target}"
 CUT="${CUT:-900}"
 
 cd "$HERE"
-CARGO_NET_OFFLINE=true cargo build --offline -j "${JOBS:-12}" --target-dir "$TARGET" -p drv-uplc -p drv-lang
+CARGO_NET_OFFLINE=true cargo build --offline -j "${JOBS:-12}" --target-dir "$TARGET" -p drv-uplc -p drv-lang -p drv-project
 
 UPLC="$TARGET/debug/drv-uplc"
 LANG_BIN="$TARGET/debug/drv-lang"
+PROJECT_BIN="$TARGET/debug/drv-project"
 
 show() { if [ "$CUT" = 0 ]; then cat; else cut -c1-"$CUT"; fi; }
 
@@ -80,3 +81,35 @@ EOF
 {"op":"check","id":"warnings","src":"fn unused() { 1 }\npub fn g(x: Int) { let y = 1\n x }"}
 {"op":"compile","id":"kinds","src":"pub type Tree<a> { Leaf Node(Tree<a>, a, Tree<a>) }\npub opaque type Id { inner: ByteArray }\npub fn size(t: Tree<Int>) -> Int { when t is { Leaf -> 0\n Node(l, _, r) -> size(l) + 1 + size(r) } }\npub fn hof(f: fn(Int) -> Int) -> Int { f(1) }\npub fn gen(x: a) -> a { x }\npub fn key(i: Id, o: Option<(Int, ByteArray)>, p: Pair<Int, Bool>) -> ByteArray { i.inner }\nvalidator v(k: Int) { mint(_r: Data, _p: ByteArray, _tx: Data) { k == 1 } else(_) { fail } }"}
 EOF
+
+echo "=== drv-project"
+PSRC='pub type Colour { Red Green Blue }\npub type Shape { Circle(Int) Rect { w: Int, h: Int } }\npub type Acc { owner: ByteArray, bal: Int, flag: Bool }\npub fn f(a: Shape, b: List<Int>, c: Option<(Int, ByteArray)>) -> Int { 0 }\nvalidator v(p: Int, q: Shape) {\n  spend(_d: Option<Acc>, _r: Colour, _o: Data, _tx: Data) { p > 0 }\n  else(_) { fail }\n}\n'
+BLUEPRINT=$(echo "{\"op\":\"blueprint\",\"id\":\"blueprint\",\"src\":\"$PSRC\"}" | "$PROJECT_BIN")
+echo "$BLUEPRINT" | show
+python3 - "$BLUEPRINT" "$PSRC" > /tmp/drv-smoke-project-reqs.jsonl <<'EOF'
+import sys, json
+bp = json.loads(sys.argv[1])["Ok"]
+src = sys.argv[2].encode().decode("unicode_escape")
+vs = bp["validators"]
+print("validators:", [(v["title"], len(v.get("parameters", [])), v.get("hash")) for v in vs], file=sys.stderr)
+assert [v["title"] for v in vs] == ["test/mod.v.spend", "test/mod.v.else"]
+q = vs[0]["parameters"][1]
+defs = bp["definitions"]
+circle = {"constr": [0, [{"i": "1"}]]}
+bad_rect = {"constr": [1, [{"i": "1"}]]}
+reqs = [
+    {"op": "ping", "id": "ping"},
+    {"op": "schema", "id": "schema", "src": src, "finalize": True},
+    {"op": "apply", "id": "apply ok", "src": src, "validator": "test/mod.v.spend", "params": [{"i": "3"}, circle]},
+    {"op": "apply", "id": "apply Rect with one field (panics in parameter.rs today)", "src": src, "validator": "test/mod.v.spend", "params": [{"i": "3"}, bad_rect]},
+    {"op": "apply", "id": "apply bytes for Int", "src": src, "validator": "test/mod.v.else", "params": [{"b": "00"}]},
+    {"op": "validate_param", "id": "validate ok", "parameter": q, "definitions": defs, "constant": {"data": circle}},
+    {"op": "validate_param", "id": "validate mismatch", "parameter": q, "definitions": defs, "constant": {"data": {"constr": [2, []]}}},
+    {"op": "validate_param", "id": "validate inline", "parameter": {"schema": {"dataType": "#integer"}}, "constant": {"int": "1"}},
+    {"op": "blueprint", "id": "generic redeemer", "src": "validator g { mint(r: List<a>, _p: ByteArray, _tx: Data) { True } else(_) { fail } }"},
+    {"op": "blueprint", "id": "check error", "src": "pub fn f() -> Int { True }"},
+]
+for r in reqs:
+    print(json.dumps(r))
+EOF
+"$PROJECT_BIN" < /tmp/drv-smoke-project-reqs.jsonl | show
